@@ -57,7 +57,7 @@ theorem lg_edge {k : Nat} {e : Nat × Nat} (hk : (lg H W).edges[k]? = some e) :
   obtain ⟨s, hs, rfl⟩ := hk
   exact ⟨s, hs, graphSegs_valid H W s (List.mem_of_getElem? hs), rfl⟩
 
-theorem seg_edge {s : Seg} (hs : s.Valid H W) : ∃ k, (graphSegs H W)[k]? = some s ∧
+theorem seg_edge {s : Seg} (hs : s.Valid H W) : ∃ k : Nat, (graphSegs H W)[k]? = some s ∧
     (lg H W).edges[k]? = some (segEdge W s) := by
   have hm : s ∈ graphSegs H W := (graphSegs_perm H W).mem_iff.mpr ((mem_allSegs H W s).mpr hs)
   obtain ⟨k, hk, rfl⟩ := List.getElem_of_mem hm
@@ -79,7 +79,7 @@ theorem lg_gridLike (H W : Nat) : GridLike (H + 1) (W + 1) (lg H W) where
         have := (seg_adj hs).2.2
         simp only [segEdge, Prod.mk.injEq] at he
         rw [he.1, he.2] at this
-        exact cellGraph.symm this
+        exact this.symm
     · intro hadj
       obtain ⟨s, hs, he | he⟩ := adj_seg hu hv hadj
       · obtain ⟨k, _, hk⟩ := seg_edge hs
